@@ -11,4 +11,9 @@ CHECKS = {
         "note": COMMON + "get_listeners() (all events) and get_listener_priority are outside the theorem and compared by the tie only. Listeners are distinct callables.",
     },
 }
+CHECKS["C10"] = {
+    "technique": "Coq proof of the gate law for all flag words (bit lemmas) and of every modelled entry point's gate path + exhaustive differential run over all public write paths found by reflection",
+    "text": "Theorems gate_level (for every integer flag word and verbosity >= 0, _may_write = not quiet and verbosity >= lowest requested level), gate_iff (every text-writing entry point of Output/SectionOutput, decorated or not, emits exactly when the gate with the caller's flags allows), gate_monotone, quiet_silent. The tie is exhaustive: 26 entry points (Output, SectionOutput, IO and IO.section(), standard and error) x 5 formatter/stream kinds x quiet x 4 verbosities x 14 flag words, with the set of public writing methods re-discovered by reflection on every run (an unknown one is a violation).",
+    "note": COMMON + "Which gate calls guard each method (Model/Gate.v, path) is a hand transcription validated by the exhaustive tie; a section does not inherit quiet/verbosity from its parent output in the code, the property is read per output object.",
+}
 NOT_APPLICABLE = {}
